@@ -171,6 +171,19 @@ def run(ctx):
             if size is None:
                 continue
             bad = data_dependent(size)
+            if bad:
+                # the discriminant of a crate enum obtained through its checked conversion is bounded by the enum's largest discriminant,
+                # whatever byte it was decoded from
+                s0 = size
+                while s0.tag in ('cast', 'mut'):
+                    s0 = s0[2] if s0.tag == 'cast' else s0[1]
+                if s0.tag == 'discr':
+                    import re as _re
+                    for y in walk(s0[1]):
+                        m_ = _re.match(r'^<(.+?) as std::convert::TryFrom<', y[1]) if y.tag == 'call' and isinstance(y[1], str) else None
+                        adt_ = ctx.facts.adts.get(m_.group(1)) if m_ else None
+                        if adt_ is not None and adt_['kind'] == 'Enum' and y[1].endswith('>::try_from'):
+                            bad = False
             key = 'R-C16-4/%s/%s/%s' % (b.path, d.split('::')[-1], canon(size)[:100])
             rep.check(not bad, 'R-C16-4', key, 'allocation size %s derives from lengths / constants / bounded parameters' % short(size, 140),
                       'allocation size depends on input data values: %s' % short(size, 200), ctx.where(b, bb))
